@@ -32,6 +32,10 @@ RevDepExpr(X, n) ==   \* OR over selects of (source && condition)
   LET rs == X.s[n].selects
   IN FoldLeft(LAMBDA acc, r : <<"||", acc, <<"&&", <<"s", r.src>>, r.e.c>>>>, CN, rs)
 
+ReachExpr(X, n) ==    \* OR over imply, set and set default entries aimed at n of (source && condition)
+  LET rs == X.s[n].implies \o X.s[n].sets \o X.s[n].wsets
+  IN FoldLeft(LAMBDA acc, r : <<"||", acc, <<"&&", <<"s", r.src>>, r.e.c>>>>, CN, rs)
+
 DocVisible(X, A0, Tg, n, fuel) ==   \* some prompt of n is reachable for this target
   \E k \in 1..Len(X.s[n].ctx) : ~IsN(Fold(X, A0, Tg, X.s[n].ctx[k], fuel))
 
@@ -42,6 +46,7 @@ ConstN(X, A0, Tg, n, fuel) ==
   ELSE IF IsY(Fold(X, A0, Tg, RevDepExpr(X, n), fuel - 1)) THEN TRUE
   ELSE IF X.s[n].ctx # <<>> /\ DocVisible(X, A0, Tg, n, fuel - 1) THEN FALSE
   ELSE /\ ConstE(X, A0, Tg, RevDepExpr(X, n), fuel - 1)
+       /\ ConstE(X, A0, Tg, ReachExpr(X, n), fuel - 1)      \* a user option may reach it through imply / set / set default
        /\ \A k \in 1..Len(X.s[n].defaults) :
             /\ ConstE(X, A0, Tg, X.s[n].defaults[k].c, fuel - 1)
             /\ ConstE(X, A0, Tg, X.s[n].defaults[k].v, fuel - 1)
